@@ -82,6 +82,7 @@ class Typer:
         self.stack = []
         self.unanalysed = set()
         self.nodes = 0
+        self.peak = {}
         self.globals = {}
         for d in unit.ast.get("inner", []):
             if d.get("kind") == "VarDecl":
@@ -157,6 +158,16 @@ class Typer:
         return None
 
     def expr(self, n, env, ctx):
+        d = self._expr(n, env, ctx)
+        # the highest length degree any intermediate value reaches, per entry function (float range headroom)
+        if known(d) and self.stack and n.get("kind") in ("BinaryOperator", "CompoundAssignOperator", "CallExpr"):
+            top = self.stack[0]
+            if top not in self.peak or d[0] > self.peak[top][0]:
+                file, line = self.unit.where(n)
+                self.peak[top] = (d[0], d[1], c_text(n)[:120], line, file, ctx["fn"])
+        return d
+
+    def _expr(self, n, env, ctx):
         self.nodes += 1
         k = n.get("kind")
         if k in ("ImplicitCastExpr", "ParenExpr", "CStyleCastExpr", "ConstantExpr"):
